@@ -5,7 +5,6 @@ import Hdc.Model.Discrete
 import Hdc.Py
 import Hdc.Model.PyDate
 import Hdc.Model.Bounds
-import Hdc.Gen.Dekad
 /-
 Line-protocol driver: one case per input line, one answer per output line.
   <kernel> <F|Q> <args...>      numeric kernels at Float (binary64, values as 16-hex-digit bit
@@ -252,27 +251,6 @@ def runDiscrete (k : String) (args : List String) : Option String := do
   | "ymd2ord", [y, m, d] =>
     let y ← Codec.dec (α := Int) y; let m ← Codec.dec (α := Int) m; let d ← Codec.dec (α := Int) d
     pure s!"ok {PyDate.ymd2ord y m d}"
-  | "dekad", [y, m, d] =>
-    -- everything the class reports for the dekad of a date
-    let y ← Codec.dec (α := Int) y; let m ← Codec.dec (α := Int) m; let d ← Codec.dec (α := Int) d
-    let r := Gen.Dekad.ofDate y m d
-    let showDT := fun (e : Except Py.PyErr PyDate.DateTime) => match e with
-      | .ok t => let (yy, mm, dd) := t.ymd; s!"{yy}-{mm}-{dd}+{t.us}"
-      | .error k => s!"err:{repr k}"
-    let nd := match Gen.Dekad.ndays r with | .ok k => toString k | .error k => s!"err:{repr k}"
-    pure s!"ok {r} {Gen.Dekad.year r} {Gen.Dekad.month r} {Gen.Dekad.day r} {Gen.Dekad.idx r} {Gen.Dekad.yidx r} {Gen.Dekad.str r} {showDT (Gen.Dekad.start_date r)} {showDT (Gen.Dekad.end_date r)} {nd}"
-  | "dekadraw", [r] =>
-    let r ← Codec.dec (α := Int) r
-    let showDT := fun (e : Except Py.PyErr PyDate.DateTime) => match e with
-      | .ok t => let (yy, mm, dd) := t.ymd; s!"{yy}-{mm}-{dd}+{t.us}"
-      | .error k => s!"err:{repr k}"
-    let nd := match Gen.Dekad.ndays r with | .ok k => toString k | .error k => s!"err:{repr k}"
-    let back := match Gen.Dekad.ofStr (Gen.Dekad.str r) with | .ok k => toString k | .error k => s!"err:{repr k}"
-    pure s!"ok {Gen.Dekad.year r} {Gen.Dekad.month r} {Gen.Dekad.day r} {Gen.Dekad.idx r} {Gen.Dekad.yidx r} {Gen.Dekad.str r} {showDT (Gen.Dekad.start_date r)} {showDT (Gen.Dekad.end_date r)} {nd} {back}"
-  | "dekadstr", [lbl] =>
-    match Gen.Dekad.ofStr lbl with
-    | .ok r => pure s!"ok {r}"
-    | .error k => pure s!"err {repr k}"
   | "trace", kind :: rest =>
     let showT := fun (t : List Bounds.Acc) =>
       "ok [" ++ ",".intercalate (t.map fun a => s!"{a.arr}:{a.idx}:{a.len}:{if a.write then 1 else 0}") ++ "]"
